@@ -591,6 +591,8 @@ Definition pybrace_field_re_pattern : pystr :=
   [10; 32; 32; 32; 32; 40; 63; 80; 60; 108; 105; 116; 101; 114; 97; 108; 62; 32; 40; 63; 58; 32; 91; 94; 123; 125; 93; 32; 124; 32; 91; 123; 93; 123; 50; 125; 32; 124; 32; 91; 125; 93; 123; 50; 125; 32; 41; 43; 32; 41; 32; 124; 10; 32; 32; 32; 32; 40; 63; 58; 10; 32; 32; 32; 32; 32; 32; 32; 32; 91; 123; 93; 10; 32; 32; 32; 32; 32; 32; 32; 32; 32; 32; 32; 32; 40; 63; 58; 10; 32; 32; 32; 32; 32; 32; 32; 32; 32; 32; 32; 32; 32; 32; 32; 32; 40; 63; 80; 60; 110; 97; 109; 101; 62; 10; 32; 32; 32; 32; 40; 63; 58; 32; 92; 100; 43; 32; 124; 32; 91; 94; 92; 87; 92; 100; 93; 92; 119; 42; 32; 41; 10; 32; 32; 32; 32; 40; 63; 58; 10; 32; 32; 32; 32; 32; 32; 32; 32; 91; 46; 93; 32; 91; 94; 92; 87; 92; 100; 93; 92; 119; 42; 32; 124; 10; 32; 32; 32; 32; 32; 32; 32; 32; 92; 91; 32; 91; 94; 93; 93; 43; 32; 92; 93; 10; 32; 32; 32; 32; 41; 42; 10; 41; 32; 63; 10; 32; 32; 32; 32; 32; 32; 32; 32; 32; 32; 32; 32; 32; 32; 32; 32; 40; 63; 80; 60; 99; 111; 110; 118; 101; 114; 115; 105; 111; 110; 62; 32; 33; 32; 92; 119; 43; 32; 41; 32; 63; 10; 32; 32; 32; 32; 32; 32; 32; 32; 32; 32; 32; 32; 32; 32; 32; 32; 40; 63; 80; 60; 102; 111; 114; 109; 97; 116; 62; 32; 58; 10; 32; 32; 32; 32; 32; 32; 32; 32; 32; 32; 32; 32; 32; 32; 32; 32; 32; 32; 32; 32; 40; 63; 58; 10; 32; 32; 32; 32; 32; 32; 32; 32; 32; 32; 32; 32; 32; 32; 32; 32; 32; 32; 32; 32; 32; 32; 32; 32; 91; 94; 123; 125; 93; 32; 124; 10; 32; 32; 32; 32; 32; 32; 32; 32; 32; 32; 32; 32; 32; 32; 32; 32; 32; 32; 32; 32; 32; 32; 32; 32; 91; 123; 93; 32; 40; 63; 58; 10; 32; 32; 32; 32; 40; 63; 58; 32; 92; 100; 43; 32; 124; 32; 91; 94; 92; 87; 92; 100; 93; 92; 119; 42; 32; 41; 10; 32; 32; 32; 32; 40; 63; 58; 10; 32; 32; 32; 32; 32; 32; 32; 32; 91; 46; 93; 32; 91; 94; 92; 87; 92; 100; 93; 92; 119; 42; 32; 124; 10; 32; 32; 32; 32; 32; 32; 32; 32; 92; 91; 32; 91; 94; 93; 93; 43; 32; 92; 93; 10; 32; 32; 32; 32; 41; 42; 10; 41; 32; 63; 32; 91; 125; 93; 10; 32; 32; 32; 32; 32; 32; 32; 32; 32; 32; 32; 32; 32; 32; 32; 32; 32; 32; 32; 32; 41; 42; 10; 32; 32; 32; 32; 32; 32; 32; 32; 32; 32; 32; 32; 32; 32; 32; 32; 41; 32; 63; 10; 32; 32; 32; 32; 32; 32; 32; 32; 32; 32; 32; 32; 41; 10; 32; 32; 32; 32; 32; 32; 32; 32; 91; 125; 93; 10; 32; 32; 32; 32; 41; 10]%N.
 Definition pybrace_format_spec_re_pattern : pystr :=
   [10; 32; 32; 32; 32; 92; 65; 10; 32; 32; 32; 32; 40; 63; 58; 10; 32; 32; 32; 32; 32; 32; 32; 32; 40; 63; 80; 60; 102; 105; 108; 108; 62; 32; 91; 94; 125; 93; 32; 41; 32; 63; 10; 32; 32; 32; 32; 32; 32; 32; 32; 40; 63; 80; 60; 97; 108; 105; 103; 110; 62; 32; 91; 60; 62; 61; 94; 93; 32; 41; 10; 32; 32; 32; 32; 41; 32; 63; 10; 32; 32; 32; 32; 40; 63; 80; 60; 115; 105; 103; 110; 62; 32; 91; 32; 43; 45; 93; 32; 41; 32; 63; 10; 32; 32; 32; 32; 40; 63; 80; 60; 97; 108; 116; 62; 32; 91; 35; 93; 32; 41; 32; 63; 10; 32; 32; 32; 32; 40; 63; 80; 60; 122; 101; 114; 111; 62; 32; 91; 48; 93; 32; 41; 32; 63; 10; 32; 32; 32; 32; 40; 63; 80; 60; 119; 105; 100; 116; 104; 62; 32; 91; 48; 45; 57; 93; 43; 32; 41; 32; 63; 10; 32; 32; 32; 32; 40; 63; 80; 60; 99; 111; 109; 109; 97; 62; 32; 91; 44; 93; 32; 41; 32; 63; 10; 32; 32; 32; 32; 40; 63; 58; 10; 32; 32; 32; 32; 32; 32; 32; 32; 91; 46; 93; 10; 32; 32; 32; 32; 32; 32; 32; 32; 40; 63; 80; 60; 112; 114; 101; 99; 105; 115; 105; 111; 110; 62; 32; 92; 100; 43; 41; 10; 32; 32; 32; 32; 41; 32; 63; 10; 32; 32; 32; 32; 40; 63; 80; 60; 116; 121; 112; 101; 62; 32; 91; 92; 119; 37; 93; 41; 32; 63; 10; 32; 32; 32; 32; 92; 90; 10]%N.
+(* Error(Exception); ConversionError, FormatError, FormatTypeMismatch, ArgumentNumberingMixture, ArgumentRangeError,
+   ArgumentTypeMismatch, each (Error) *)
 Definition pybrace_error_classes : list (pystr * pystr) :=
   [([69; 114; 114; 111; 114]%N, [69; 120; 99; 101; 112; 116; 105; 111; 110]%N);
    ([67; 111; 110; 118; 101; 114; 115; 105; 111; 110; 69; 114; 114; 111; 114]%N, [69; 114; 114; 111; 114]%N);
